@@ -1,4 +1,4 @@
-package c09
+package jgram
 
 // Declarations: compilation unit, types of every kind, members, parameters.
 
